@@ -871,6 +871,9 @@ def m_dict_get(I, d, args, kwargs, node):
         return default
     I.reads.append(("dict_key", (d, k)))
     _wf_dict(I, d, k)
+    h = getattr(I, "dict_entry_hook", None)
+    if h is not None:
+        h(I, d, k)
     return z3.simplify(z3.If(z3.Select(Val.dkeys(d), k), z3.Select(Val.dvals(d), k), default))
 
 
@@ -1581,6 +1584,35 @@ def b_iter(I, args, kwargs, node):
     return args[0]
 
 
+def b_next(I, args, kwargs, node):
+    """next(iterator) for the first element of a list / dict view (iterators are not stateful in the model: only
+    next(iter(x)) of a fresh iterator is supported)"""
+    sv = z3.simplify(args[0])
+    d = I.ctx.fn_desc(sv) if V.ctor_name(sv) == "fn" else None
+    if d is not None and d.kind == "dictview":
+        D = z3.simplify(d.payload)
+        I.assume(Val.dsize(D) >= 0)
+        if not I.choose(Val.dsize(D) > 0, "next_nonempty"):
+            if len(args) > 1:
+                return args[1]
+            I.throw("StopIteration", "")
+        k = I.fresh("first_key", S)
+        I.assume(z3.Select(Val.dkeys(D), k))
+        h = getattr(I, "dict_entry_hook", None)
+        if h is not None:
+            h(I, D, k)
+        v = z3.Select(Val.dvals(D), k)
+        return {"keys": V.VStr(k), "values": v, "items": V.VTuple([V.VStr(k), v])}[d.name]
+    seq, kind = seq_and_kind(I, sv, node)
+    if seq is None:
+        raise Unsupported("next() of this iterator", node)
+    if I.choose(z3.Length(seq) > 0, "next_nonempty"):
+        return z3.simplify(seq[0])
+    if len(args) > 1:
+        return args[1]
+    I.throw("StopIteration", "")
+
+
 def b_issubclass(I, args, kwargs, node):
     a, b = I.ctx.cls_desc(args[0]), I.ctx.cls_desc(args[1])
     if a is None or b is None:
@@ -1597,7 +1629,7 @@ BUILTINS = {
     "len": b_len, "str": b_str, "repr": b_repr, "int": b_int, "float": b_float, "bool": b_bool,
     "callable": b_callable, "type": b_type, "list": b_list, "tuple": b_tuple, "dict": b_dict, "set": b_set,
     "all": b_all, "any": b_any, "min": b_min, "max": b_max, "enumerate": b_enumerate, "range": b_range,
-    "id": b_id, "print": b_print, "iter": b_iter, "issubclass": b_issubclass, "sorted": b_sorted,
+    "id": b_id, "print": b_print, "iter": b_iter, "next": b_next, "issubclass": b_issubclass, "sorted": b_sorted,
 }
 
 
